@@ -96,16 +96,18 @@ def unchanged(maps, status=True):
     return ' and '.join(parts)
 
 
-def arm_change_contracts(cls, maps, neutral, extra_modifies=(), others=True, props='C01 C08', rem_req=()):
+def arm_change_contracts(cls, maps, neutral, extra_modifies=(), others=True, props='C01 C08', rem_req=(),
+                         rem_inv='INV', other_maps=None):
     """Contracts of BaseMAB.add_arm / remove_arm for receiver class `cls` whose per-arm dictionaries are `maps`."""
     mods = ['self.%s{}' % m for m in maps] + ['self.arm_to_status{}'] + list(extra_modifies)
     ens_add = ['INV', '[C01,C03,neutral] ' + neutral + ' and ' + status_fresh('arm')]
-    ens_rem = ['INV']
+    ens_rem = [rem_inv]
     if others:
+        om = other_maps if other_maps is not None else maps
         ens_add.append('[C01,others] forall_arm(lambda a: implies(old(inkeys(self.arm_to_expectation, a)), %s))'
-                       % unchanged(maps))
+                       % unchanged(om))
         ens_rem.append('[C01,others] forall_arm(lambda a: implies(inkeys(self.arm_to_expectation, a), %s))'
-                       % unchanged(maps))
+                       % unchanged(om))
     fn('base_mab.BaseMAB.add_arm', cls=cls, props=props, params={'arm': 'arm', 'binarizer': 'opt:callable'},
        requires=ADD_REQ, modifies=mods, ensures=ens_add)
     fn('base_mab.BaseMAB.remove_arm', cls=cls, props=props, params={'arm': 'arm'},
@@ -137,3 +139,49 @@ def predict_contracts(module, cls, E1, EM, stream1, streamM, modifies=('self.rng
                 '[C08,member] mem(self.arms, result) if not is_list(result) else '
                 'forall_int(lambda j: implies(0 <= j and j < rows(contexts), mem(self.arms, at(result, j))))',
                 '[C10,stream] rngstate(self.rng) == ((%s) if not is_list(result) else (%s))' % (stream1, streamM)])
+
+
+# ------------------------------------------------------------------------------------- warm start (C13)
+fn('base_mab.BaseMAB.trained_arms', props='C13', pure=True,
+   requires=['INV.keys', 'INV.arms'],
+   ensures=['[members] forall_arm(lambda a: mem(result, a) == (mem(self.arms, a) and '
+            'val(self.arm_to_status, a, "is_trained")))',
+            '[order] distinct(result)'],
+   result='alist')
+fn('base_mab.BaseMAB.cold_arms', props='C13', pure=True,
+   requires=['INV.keys', 'INV.arms'],
+   # C13: cold_arms lists exactly the arms that are neither observed nor warm-started
+   ensures=['[members] forall_arm(lambda a: mem(result, a) == (mem(self.arms, a) and '
+            'not val(self.arm_to_status, a, "is_trained") and not val(self.arm_to_status, a, "is_warm")))',
+            '[order] distinct(result)'],
+   result='alist')
+
+DIST = 'fdist(metric, val(arm_to_features, from_arm), val(arm_to_features, a))'
+fn('base_mab.BaseMAB._get_arm_distances', props='C13',
+   params={'from_arm': 'arm', 'arm_to_features': 'map:rseq', 'metric': 'str', 'self_distance': 'int'},
+   requires=['inkeys(arm_to_features, from_arm)', 'distinct(keys(arm_to_features))'],
+   raises=['ValueError'],       # feature vectors of different lengths (scipy)
+   ensures=['[keys] keys(result) == keys(arm_to_features)',
+            '[values] forall_arm(lambda a: implies(inkeys(arm_to_features, a), val(result, a) == '
+            '(self_distance if (a == from_arm or isnan(%s)) else %s)))' % (DIST, DIST)],
+   result='map:real')
+
+PDIST = 'fdist(metric, val(arm_to_features, u), val(arm_to_features, v))'
+fn('base_mab.BaseMAB._get_pairwise_distances', props='C13',
+   params={'arm_to_features': 'map:rseq', 'metric': 'str', 'self_distance': 'int'},
+   requires=['distinct(keys(arm_to_features))'],
+   raises=['ValueError'],
+   ensures=['[keys] keys(result) == keys(arm_to_features)',
+            '[inner.keys] forall_arm(lambda u: implies(inkeys(arm_to_features, u), '
+            'keys(inner(result, u)) == keys(arm_to_features)))',
+            '[values] forall_arm(lambda u: forall_arm(lambda v: implies(inkeys(arm_to_features, u) and '
+            'inkeys(arm_to_features, v), val(inner(result, u), v) == '
+            '(self_distance if (v == u or isnan(%s)) else %s))))' % (PDIST, PDIST)],
+   result='map:dict')
+
+fn('base_mab.BaseMAB._get_distance_threshold', props='C13',
+   params={'distance_from_to': 'map:dict', 'quantile': 'real', 'self_distance': 'int'},
+   requires=['forall_arm(lambda u: implies(inkeys(distance_from_to, u), slen(keys(inner(distance_from_to, u))) > 0))'],
+   # the threshold is the q-quantile of a list that depends on the distances only: monotone in q (A4)
+   ensures=['[function] result == quantile_of(closest_distances(distance_from_to, self_distance), quantile)'],
+   result='real')
